@@ -51,6 +51,13 @@ CLAIMS = {
          "documented score definition inside Coq.",
          "Trusted: Coq kernel + vm_compute; model; harness; float quotient comparison = exact rational comparison for the small integers involved.",
          "DESIGN.md section 4, C12"),
+ "C10": ("Coq scan-invariant proof over a Gallina model of pickaperm.py + vm_compute correspondence",
+         "Machine-checked for all datasets / scoring functions: every returned ranking is an input (unified when incomplete) of minimal "
+         "score, the reported minimum is a lower bound of all inputs, with return_at_most_one_ranking=False every minimal input is returned, "
+         "with True exactly one; refusal iff incomplete and scheme not a positive multiple of the unifying scheme; unification spec. "
+         "The library's list of rankings and reported score are compared with the model and re-judged against kemeny_spec in Coq.",
+         "Trusted: Coq kernel + vm_compute; model; harness; the scores are kemeny_spec (C01 ties get_kemeny_score to it).",
+         "DESIGN.md section 4, C10"),
 }
 NOT_YET = "check not built yet in this phase (planned: DESIGN.md section 4); no claim is made"
 
